@@ -137,8 +137,8 @@ PATH_STRS = ["a", "x y", "é", "A-1", "v.2_3", "7"]
 # Reserved characters in path values.  The standard method percent-encodes them (fixed F04h): any of these must
 # arrive as ONE segment.  The multi-content dispatch still interpolates raw (F04b): only plain '/' is used there
 # ('?', '#', '%', '..' change httpx's URL parsing / get collapsed - outside the model of the raw interpolation)
-SLASH_STRS = ["a/b", "x/", "p/q/r"]
-RESERVED_STRS = SLASH_STRS + ["../x", "x?y=1#f", "50%41", "a b/c"]
+SLASH_STRS = ["a/b", "x/", "p/q/r", "..", "."]           # ".." / "." : dot segments (F04k)
+RESERVED_STRS = SLASH_STRS + ["../x", "x?y=1#f", "50%41", "a b/c", "...", ".x"]
 INTS = [0, 7, -3, 12345]
 DATES = ["2020-01-02", "1999-12-31"]
 DTS = ["2020-01-02T03:04:05", "1999-12-31T23:59:59"]
@@ -339,6 +339,12 @@ def cross_ops() -> list[dict]:
         if k == "items":
             op["json_array"] = "items"
         out.append(op)
+    # two path variables that are NOT declared as parameters (outside the theorem's well-formedness condition; the
+    # model follows _ensure_path_variables_as_params, which adds them in template order)
+    out.append({"id": "xundecl", "tag": "alpha", "method": "get",
+                "path": [["lit", "/xu/"], ["var", "zeta"], ["lit", "/"], ["var", "alphaId"], ["lit", "/"], ["var", "id"]],
+                "params": [prm("id", "path", required=True), prm("q", "query")], "body": [], "body_required": False,
+                "undeclared": ["zeta", "alphaId"]})
     return out
 
 
@@ -362,6 +368,9 @@ def assignments(rng, op: dict, max_enum: int = 5, n_random: int = 12, cap: int |
         if (p["in"], p["name"]) not in seen:
             seen.add((p["in"], p["name"]))
             ps.append(p)
+    # path variables without a declared parameter: the generator adds a required `str` argument for each
+    for v in op.get("undeclared", []):
+        ps.append({"name": v, "in": "path", "required": True, "ty": "str", "array": False, "level": "op"})
     opt = [p for p in ps if not p["required"]]
     body_optional = bool(op["body"]) and not op["body_required"]
     nopt = len(opt) + (1 if body_optional else 0)
@@ -651,7 +660,7 @@ def oracle(op: dict, a: dict, obs: dict) -> list[str]:
 
 
 # ------------------------------------------------------------------------------------------- Coq printers
-GUARD_FINDINGS = {1: "F04j", 2: "F04c", 3: "F04d", 4: "F04f", 5: "F04i"}   # bit k of Corr.C04.run
+GUARD_FINDINGS = {1: "F04j", 2: "F04c", 3: "F04d", 4: "F04f", 5: "F04i", 6: "F04k"}   # bit k of Corr.C04.run
 LOC = {"path": "Path", "query": "Query", "header": "Header", "cookie": "Cookie"}
 TY = {"str": "TStr", "int": "TInt", "bool": "TBool", "enum": "TEnum", "date": "TDate", "datetime": "TDateTime"}
 
@@ -730,7 +739,7 @@ def c_obs(obs: dict) -> str:
     else:
         body = f"(OBytes {c_bytes(b[1])})"
     kv = lambda l: clist(cpair(cstr(k), cstr(v)) for k, v in l)  # noqa: E731
-    return (f"(Some {{| r_method := {cstr(r['method'])}; r_path := {cstr(r['path'])}; "
+    return (f"(Some {{| r_method := {cstr(r['method'])}; "
             f"r_segs := {clist(cstr(x) for x in r['segs'])}; r_query := {kv(r['query'])}; "
             f"r_headers := {kv(r['headers'])}; r_cookies := {kv(r['cookies'])}; "
             f"r_ctype := {copt(r['ctype'], cstr)}; r_body := {body} |}})")
